@@ -447,6 +447,22 @@ pub fn query<A: HC>(q: &str, t: &mut Toks) -> R<String> {
             let b = eval_v::<A>(&parse_v(t)?)?;
             ord_str(A::seq_cmp(&a, &b).ok_or(Fail::Unsup)?).to_string()
         }
+        "mapget" => {
+            // HashMap<Seq<A>, _>::get(&SeqSlice<A>) through Borrow + Hash/Eq agreement
+            let n = t.num()?;
+            let mut m: std::collections::HashMap<Seq<A>, usize> = std::collections::HashMap::new();
+            for i in 0..n {
+                let k = eval_v::<A>(&parse_v(t)?)?;
+                m.insert(k, i);
+            }
+            let s = parse_s(t)?;
+            eval_s::<A, _>(&s, &mut |x| {
+                Ok(match m.get(x) {
+                    Some(i) => i.to_string(),
+                    None => "none".into(),
+                })
+            })?
+        }
         "iter" => {
             let s = parse_s(t)?;
             eval_s::<A, _>(&s, &mut |x| Ok(codes(x.iter())))?
